@@ -1,7 +1,7 @@
 //! rustc as the correspondence oracle for the table properties C05 and C17.
 //!
 //! `probedrive --tier quick|thorough --seed <u64> --lean <tables_driver> --out <stats.json>
-//!             [--only c05|c17] [--replay <file.json>] [--repo <dir, default /repo>] [--keep]`
+//!             [--only c05|c06|c17] [--replay <file.json>] [--repo <dir, default /repo>] [--keep]`
 //!
 //! `--only c05` builds/runs/reports only the C05 suite (auto-trait rows vs rustc + `rows_c05`),
 //! `--only c17` only the C17 suites (unsafe entry points, escape corpus, self-escape,
@@ -29,6 +29,11 @@
 //!   the lifetime skeleton's prediction, and a result that contains a reference (or comes from a
 //!   type holding a `&mut` borrow: `Drain`, the `RefMut` guards) must be rejected unless the row
 //!   is a reviewed borrowed-view / never-borrowed function (`escape_exempt`).
+//! * crate `doors` (C06, signature part; `--only c06`): the hand-written corpus
+//!   `probes/doors.rs` — raw bytes cannot be turned into a HipStr/HipOsStr/HipPath by an
+//!   infallible safe conversion (must be rejected) with twins through the checked doors — plus
+//!   one generated call per row that the driver's `rows_c06` reports (none on a sound tree):
+//!   rustc accepting it is the concrete witness of the unchecked door.
 //! * crate `escape` (C17): the hand-written corpus `probes/escape.rs` of borrow-escape programs
 //!   (must be rejected by the borrow checker) and their must-compile twins; the expectation of
 //!   each is also checked against the model (`tied <row>`).
@@ -49,6 +54,7 @@ const ESCAPE_SRC: &str = include_str!("../../probes/escape.rs");
 const AUTOTRAIT_PRELUDE: &str = include_str!("../../probes/autotrait_prelude.rs");
 const UNSAFE_PRELUDE: &str = include_str!("../../probes/unsafe_prelude.rs");
 const SELFESCAPE_PRELUDE: &str = include_str!("../../probes/selfescape_prelude.rs");
+const DOORS_SRC: &str = include_str!("../../probes/doors.rs");
 const PACKAGE_TMPL: &str = include_str!("../../probes/package.toml.tmpl");
 
 /// The throw-away workspace (removed on every exit path unless `--keep`).
@@ -239,8 +245,12 @@ fn cargo_check(dir: &Path, crates: &[&str]) -> BTreeMap<String, BTreeMap<usize, 
 }
 
 fn parse_escape() -> Vec<EscapeProbe> {
+    parse_corpus(ESCAPE_SRC)
+}
+
+fn parse_corpus(src: &str) -> Vec<EscapeProbe> {
     let mut probes: Vec<EscapeProbe> = vec![];
-    for (i, l) in ESCAPE_SRC.lines().enumerate() {
+    for (i, l) in src.lines().enumerate() {
         if let Some(h) = l.strip_prefix("//@ ") {
             let mut it = h.splitn(3, ' ');
             let name = it.next().unwrap_or("").to_string();
@@ -278,7 +288,7 @@ fn main() {
     let cli = parse_cli();
     let mut repo_dir = PathBuf::from("/repo");
     let mut keep = false;
-    let (mut run_c05, mut run_c17) = (true, true);
+    let (mut run_c05, mut run_c17, mut run_c06) = (true, true, true);
     let mut i = 0;
     while i < cli.extra.len() {
         match cli.extra[i].as_str() {
@@ -290,9 +300,10 @@ fn main() {
             "--only" => {
                 i += 1;
                 match cli.extra.get(i).map(|s| s.to_ascii_lowercase()).as_deref() {
-                    Some("c05") => run_c17 = false,
-                    Some("c17") => run_c05 = false,
-                    _ => internal("--only expects c05 or c17"),
+                    Some("c05") => (run_c17, run_c06) = (false, false),
+                    Some("c17") => (run_c05, run_c06) = (false, false),
+                    Some("c06") => (run_c05, run_c17) = (false, false),
+                    _ => internal("--only expects c05, c06 or c17"),
                 }
             }
             other => internal(&format!("unknown argument {other}")),
@@ -379,7 +390,7 @@ fn main() {
     }
 
     // ------------------------------------------------------------------ C17 unsafe rows
-    let collected = if run_c17 {
+    let collected = if run_c17 || run_c06 {
         let repo = Repo::load(&repo_dir).unwrap_or_else(|e| internal(&e));
         let cm = CrateModel::build(&repo).unwrap_or_else(|e| internal(&format!("crate model: {e}")));
         pubfns::collect(&cm).unwrap_or_else(|e| internal(&format!("translator: {e}")))
@@ -389,6 +400,7 @@ fn main() {
     let flagged: Vec<&pubfns::FnRow> = collected
         .rows
         .iter()
+        .filter(|_| run_c17)
         .filter(|r| r.name_unchecked || r.has_safety_doc || r.forwards.is_some())
         .collect();
     // the Lean side must see the same flagged rows (same generated table)
@@ -423,6 +435,7 @@ fn main() {
     let probed: Vec<&pubfns::FnRow> = collected
         .rows
         .iter()
+        .filter(|_| run_c17)
         .filter(|r| r.name_unchecked || r.has_safety_doc || r.forwards.is_some() || r.is_unsafe)
         .collect();
     // (row the verdict is about, the call to use)
@@ -502,7 +515,7 @@ fn main() {
     let mut self_rows: Vec<SelfRow> = vec![];
     let mut self_skipped: BTreeMap<String, usize> = BTreeMap::new();
     let mut sline = self_src.lines().count();
-    for r in &collected.rows {
+    for r in collected.rows.iter().filter(|_| run_c17) {
         match &r.self_escape {
             None => {}
             Some(Err(why)) => {
@@ -535,6 +548,55 @@ fn main() {
         }
     }
 
+    // ------------------------------------------------------------------ C06 doors
+    struct DoorRow {
+        name: String,
+        entry: String,
+        line: usize,
+        code: String,
+    }
+    let doors_corpus = if run_c06 { parse_corpus(DOORS_SRC) } else { vec![] };
+    let mut doors_src = String::from(DOORS_SRC);
+    let mut door_rows: Vec<DoorRow> = vec![];
+    let mut c06_falsifiers: Vec<String> = vec![];
+    if run_c06 {
+        let a = ask("rows_c06");
+        if a != "none" {
+            c06_falsifiers = a.split(" ; ").map(str::to_string).collect();
+        }
+        doors_src.push_str("//@ generated must_compile row=-\n");
+        let mut dline = doors_src.lines().count();
+        for entry in &c06_falsifiers {
+            // `<theorem>: <row name> :: …`
+            let name = entry
+                .split_once(": ")
+                .and_then(|(_, r)| r.split_once(" :: "))
+                .map(|(n, _)| n.to_string())
+                .unwrap_or_default();
+            let Some(r) = collected.rows.iter().find(|r| r.name == name) else {
+                continue;
+            };
+            let Some(Ok(call)) = r.door.as_ref().map(|d| d.call.clone()) else {
+                continue;
+            };
+            let n = door_rows.len();
+            let code = if r.is_unsafe {
+                format!("fn d_{n}{}() {{ unsafe {{ let _ = {}; }} }}", call.generics, call.call)
+            } else {
+                format!("fn d_{n}{}() {{ let _ = {}; }}", call.generics, call.call)
+            };
+            dline += 1;
+            doors_src.push_str(&code);
+            doors_src.push('\n');
+            door_rows.push(DoorRow {
+                name,
+                entry: entry.clone(),
+                line: dline,
+                code,
+            });
+        }
+    }
+
     // ------------------------------------------------------------------ build the workspace
     let dir = PathBuf::from(format!("/tmp/scratch/probe-{}", std::process::id()));
     let _ = std::fs::remove_dir_all(&dir);
@@ -552,6 +614,9 @@ fn main() {
     if run_c17 {
         crates.extend(["unsafety", "escape", "selfescape"]);
     }
+    if run_c06 {
+        crates.push("doors");
+    }
     write(
         &dir.join("Cargo.toml"),
         &format!(
@@ -568,6 +633,7 @@ fn main() {
         ("unsafety", &unsafe_src),
         ("escape", &ESCAPE_SRC.to_string()),
         ("selfescape", &self_src),
+        ("doors", &doors_src),
     ] {
         if !crates.contains(&krate) {
             continue;
@@ -758,6 +824,59 @@ fn main() {
         }
     }
 
+    // ------------------------------------------------------------------ verdicts: C06 doors
+    const TYPECK_CODES: &[&str] = &["E0277", "E0308", "E0599", "E0283", "E0282", "E0271"];
+    let dd = diags.get("probe_doors").unwrap_or(&empty);
+    let mut n_doors_ok = 0;
+    let generated_from = doors_corpus.last().map_or(usize::MAX, |_| DOORS_SRC.lines().count() + 1);
+    for (idx, p) in doors_corpus.iter().enumerate() {
+        let end = doors_corpus.get(idx + 1).map_or(generated_from, |q| q.first_line);
+        let mut codes = BTreeSet::new();
+        let mut msgs = vec![];
+        for (_, d) in dd.range(p.first_line..end) {
+            codes.extend(d.codes.iter().cloned());
+            msgs.extend(d.messages.iter().cloned());
+        }
+        if let Some(c) = codes.iter().find(|c| !TYPECK_CODES.contains(&c.as_str())) {
+            internal(&format!("doors probe `{}` failed for an unrelated reason {c}: {msgs:?}", p.name));
+        }
+        let rejected = !codes.is_empty();
+        if rejected == p.must_fail {
+            n_doors_ok += 1;
+        } else {
+            disagreements.push(json!({
+                "property": "C06",
+                "kind": "impl-vs-oracle",
+                "input": p.text.lines().collect::<Vec<_>>(),
+                "expected": if p.must_fail { "rejected: no safe infallible conversion from raw bytes exists" } else { "accepted (checked door / typed input)" },
+                "observed": if rejected { format!("rejected: {codes:?} {msgs:?}") } else { "accepted".to_string() },
+                "profile": "check"
+            }));
+        }
+    }
+    for (ln, d) in dd {
+        let in_corpus = doors_corpus.first().map_or(false, |p| *ln >= p.first_line) && *ln < generated_from;
+        let generated = door_rows.iter().any(|r| r.line == *ln);
+        if !in_corpus && !generated {
+            internal(&format!("doors crate: error outside the probes (line {ln}): {:?}", d.messages));
+        }
+    }
+    for entry in &c06_falsifiers {
+        let program = door_rows.iter().find(|r| r.entry == *entry);
+        let verdict = program.map(|r| match dd.get(&r.line) {
+            None => "rustc ACCEPTS this program".to_string(),
+            Some(d) => format!("rustc rejects it: {:?} {:?}", d.codes, d.messages),
+        });
+        disagreements.push(json!({
+            "property": "C06",
+            "kind": if program.is_some() { "impl-vs-oracle" } else { "monitor" },
+            "input": [program.map_or(String::new(), |r| r.code.clone())],
+            "expected": format!("no such door ({}): a HipStr/HipOsStr/HipPath is never made from unchecked raw input by a safe infallible fn, and unsafe doors are reviewed", program.map_or("", |r| r.name.as_str())),
+            "observed": format!("{entry} — {}", verdict.unwrap_or_else(|| "no client call could be generated".into())),
+            "profile": "check"
+        }));
+    }
+
     // ------------------------------------------------------------------ the table theorems' row predicates
     for q in ["rows_c05", "rows_c17"] {
         if (q == "rows_c05" && !run_c05) || (q == "rows_c17" && !run_c17) {
@@ -787,7 +906,8 @@ fn main() {
         // is already exhausted by the quick tier
     }
 
-    let programs = auto_rows.len() + 2 * unsafe_rows.len() + escape.len() + self_rows.len();
+    let programs = auto_rows.len() + 2 * unsafe_rows.len() + escape.len() + self_rows.len()
+        + doors_corpus.len() + door_rows.len();
     let mut distribution = serde_json::Map::new();
     let mut rules: Vec<&str> = vec![];
     let mut checked = programs;
@@ -827,7 +947,20 @@ fn main() {
             samples.push(json!({"program": r.code, "predicted": if r.predicted_reject {"reject"} else {"accept"}, "row": r.name}));
         }
     }
-    let properties: Vec<&str> = [(run_c05, "C05"), (run_c17, "C17")]
+    if run_c06 {
+        distribution.insert("c06_door_rows".into(), json!(collected.rows.iter().filter(|r| r.door.is_some()).count()));
+        distribution.insert("c06_corpus_programs".into(), json!(doors_corpus.len()));
+        distribution.insert("c06_corpus_as_expected".into(), json!(n_doors_ok));
+        distribution.insert("c06_falsifying_rows".into(), json!(c06_falsifiers.len()));
+        distribution.insert("c06_generated_programs".into(), json!(door_rows.len()));
+        rules.push("C06 (doors): every corpus program converting raw bytes into HipStr/HipOsStr/HipPath through an infallible safe conversion is rejected by rustc and its checked twin compiles; no row of Gen/Doors falsifies `str_doors_checked` / `os_doors_typed` / `unchecked_doors_listed` (`rows_c06`), and for a falsifying row the generated client call shows rustc accepting it");
+        checked += 1;
+        nontrivial += doors_corpus.iter().filter(|p| p.must_fail).count();
+        for p in doors_corpus.iter().take(2) {
+            samples.push(json!({"program": p.text.lines().collect::<Vec<_>>(), "expect": if p.must_fail {"reject"} else {"accept"}, "probe": p.name}));
+        }
+    }
+    let properties: Vec<&str> = [(run_c05, "C05"), (run_c06, "C06"), (run_c17, "C17")]
         .iter()
         .filter(|(on, _)| *on)
         .map(|(_, n)| *n)
